@@ -71,6 +71,8 @@ type Policy struct {
 	MaxDefer   int
 	PPre       float64 // failure before execution
 	PPost      float64 // failure after commit (lost response)
+	PSendSlow  float64 // a sender submission waits one more flush (a transport worker that is behind), at most 3 times
+	PLate      float64 // failure before execution of a store submission whose request has already committed an earlier one (error in the middle of a coroutine)
 	PRollback  float64 // the whole SQL transaction of a batch fails at its end, after every command has run, and is rolled back
 	FailBudget int     // total failures still allowed (finite failure sequences)
 	PQueueFull float64 // synchronous refusal in Dispatch
@@ -627,8 +629,13 @@ func (a *advAIO) Flush(t int64) {
 	}
 	a.pending = nil
 
-	// router / sender / echo: processed now, in order
+	// router / sender / echo: processed now, in order (a sender submission may have to wait: PSendSlow)
 	for _, p := range other {
+		if pol.PSendSlow > 0 && !a.closing && p.sqe.Submission.Kind == t_aio.Sender && p.defers < 3 && s.r.Float64() < pol.PSendSlow {
+			p.defers++
+			a.pending = append(a.pending, p)
+			continue
+		}
 		a.processOther(p)
 	}
 
@@ -719,6 +726,12 @@ func (a *advAIO) Flush(t int64) {
 		if !pre && pol.PPre > 0 && pol.FailBudget > 0 && s.r.Float64() < pol.PPre {
 			pre = true
 			pol.FailBudget--
+		}
+		if !pre && pol.PLate > 0 && pol.FailBudget > 0 && p.sqe.Submission.Kind == t_aio.Store {
+			if o := s.opById[p.ReqId()]; o != nil && len(o.Txs) > 0 && s.r.Float64() < pol.PLate {
+				pre = true
+				pol.FailBudget--
+			}
 		}
 		if pre {
 			s.failures++
